@@ -25,7 +25,7 @@ RULE = (
     "case = (composite type, with/without top-level delimiter header, byte string); byte strings: (a) every string over "
     "{00,01,02,7f,80,ff} up to the tier's length; (b) every prefix of every valid representation of the value alphabet; "
     "(c) every single-bit flip of those representations; (d) those followed by every junk suffix of length 1..2 over "
-    "{00,01,ff}. Non-trivial iff the byte string is neither empty nor all-zero; distinct by canonical hash of (type, header flag, bytes)"
+    "{00,01,ff}; plus every ordered pair of distinct same-named types with identical bit length sets (5 groups) decoded one after the other in one process. Non-trivial iff the byte string is neither empty nor all-zero; distinct by canonical hash of (type, header flag, bytes)"
 )
 ASSUMPTIONS = [
     "ref.codec.decode defines implicit zero extension / truncation and the four rejection classes (array length, union tag, delimiter header, UTF-8)",
@@ -70,12 +70,27 @@ def types_for(tier):
                 yield d
 
 
+# groups of DISTINCT structures with identical bit length sets: decoded under one shared name, one after the other in one process
+ALIAS_GROUPS = [
+    [["struct", [["uint", 8, "s"]]], ["struct", [["int", 8]]], ["struct", [["bool"], ["uint", 7, "s"]]], ["struct", [["uint", 7, "s"], ["bool"]]], ["struct", [["farr", ["bool"], 8]]], ["struct", [["uint", 4, "s"], ["int", 4]]]],
+    [["struct", [["uint", 16, "s"]]], ["struct", [["int", 16]]], ["struct", [["float", 16, "s"]]], ["struct", [["uint", 8, "s"], ["int", 8]]], ["struct", [["farr", ["byte"], 2]]], ["struct", [["farr", ["uint", 8, "s"], 2]]]],
+    [["struct", [["varr", ["uint", 8, "s"], 2]]], ["struct", [["varr", ["int", 8], 2]]], ["struct", [["varr", ["byte"], 2]]], ["struct", [["varr", ["utf8"], 2]]]],
+    [["union", [["uint", 8, "s"], ["int", 8]]], ["union", [["int", 8], ["uint", 8, "s"]]], ["union", [["bool"], ["uint", 8, "s"]]]],
+    [["delim", ["struct", [["uint", 8, "s"]]], 16], ["delim", ["struct", [["int", 8]]], 16], ["delim", ["struct", [["int", 8], ["bool"]]], 16], ["delim", ["union", [["bool"], ["int", 8]]], 16]],
+]
+
+
 def plan(tier):
     parts = 64 if tier == "quick" else 192
-    return [{"part": p, "parts": parts} for p in range(parts)]
+    return [{"part": p, "parts": parts} for p in range(parts)] + [{"alias_group": g} for g in range(len(ALIAS_GROUPS))]
 
 
 def cases(shard, tier):
+    if "alias_group" in shard:
+        g = ALIAS_GROUPS[shard["alias_group"]]
+        for a, b in itertools.permutations(range(len(g)), 2):
+            yield {"alias": [shard["alias_group"], a, b]}
+        return
     for i, d in enumerate(types_for(tier)):
         if i % shard["parts"] == shard["part"]:
             yield {"desc": d, "maxlen": 3 if tier == "quick" else 4}
@@ -130,7 +145,30 @@ def impl_decode(t, b, with_header):
         return ("other", "%s: %s" % (type(ex).__name__, str(ex)[:200]))
 
 
+def check_alias(case, R: engine.Acc):
+    g, a, b = case["alias"]
+    da, db = ALIAS_GROUPS[g][a], ALIAS_GROUPS[g][b]
+    ta, tb = T.build_named(da, "Alias", (1, 0)), T.build_named(db, "Alias", (1, 0))
+    strings = [bytes(x) for n in range(0, 4) for x in itertools.product([0x00, 0x01, 0x02, 0x7F, 0x80, 0xFF], repeat=n)]
+    for step, (desc, t) in enumerate([(da, ta), (db, tb), (da, ta)]):
+        for bs in strings:
+            R.case([case["alias"], step, bs.hex()], nontrivial=any(bs), sample=False)
+            try:
+                exp = ("ok", C.decode(desc, bs))
+            except C.Reject as rj:
+                exp = ("reject", rj.kind)
+            got = impl_decode(t, bs, False)
+            ok = (exp[0] == "reject" and got[0] in ("serdes", "value")) or (exp[0] == "ok" and got[0] == "ok" and C.same(got[1], exp[1]))
+            if not ok:
+                R.outcome("alias-mismatch")
+                R.violation("history-dependent-decoding:" + desc[0], "deserialize(T, b) depends on T and b only, not on other same-named types decoded before in the process", {**case, "step": step, "bytes": bs.hex()}, observed=repr(got)[:300], expected=repr(exp)[:300])
+                return
+    R.outcome("alias-ok")
+
+
 def check_case(case, R: engine.Acc):
+    if "alias" in case:
+        return check_alias(case, R)
     desc = case["desc"]
     t = T.build(desc)
     modes = [False, True] if desc[0] == "delim" else [False]
